@@ -36,8 +36,7 @@ THEOREMS = [
     "TDV.Loader.resume_exact",
     "TDV.Loader.resume_exact_obs",
     "TDV.Loader.resume_exact_end",
-    "TDV.Loader.get_transparent_partial",
-    "TDV.Loader.get_transparent_statement_false",
+    "TDV.Loader.get_transparent",
     "TDV.Loader.load_idempotent",
     "TDV.SDLApi.refines_ref",
     "TDV.SDLApi.refines_ref_statement_false",
@@ -54,8 +53,8 @@ RULE = ("API histories (length <= 14) are generated from one PRNG over {iter, ne
 EXPLANATION = ("Lean: the flag-based Loader / StatefulDataLoader facades refine a list-based reference for every op sequence "
                "(TDV.Loader.refines_ref, TDV.SDLApi.refines_ref; the reference's one open choice each is the code's, the strict "
                "readings are refuted on decided witnesses = known findings F1/F2 and proved on the histories where the choice is "
-               "invisible), resume is a bisimulation (resume_exact*), extra state_dict() calls on an existing iterator are "
-               "transparent (get_transparent_partial; F3 witness), loading is repeatable (load_idempotent). Tie: the same random "
+               "invisible), resume is a bisimulation (resume_exact*), extra state_dict() calls are "
+               "transparent (get_transparent, full strength since the F3 repair), loading is repeatable (load_idempotent). Tie: the same random "
                "histories through the real classes and the Lean models, and the Lean reference against the Python reference; "
                "oracle: the real classes against an independent Python reference written from the property text.")
 ASSUMPTIONS = [
@@ -390,9 +389,9 @@ class Reference:
 
     def load(self, i: int):
         self.pending = self.toks[i]
-        self.reuse = False
-        if self.drops:
+        if self.drops or self.reuse:  # an iterator created only by state_dict() is invalidated: it is gone
             self.cur = None
+        self.reuse = False
 
 
 def run_reference(hist: Dict[str, Any]) -> List[Any]:
@@ -627,31 +626,9 @@ def peek_transparent(hist, real=None) -> Tuple[bool, str]:
     return True, "extra state_dict() calls change nothing"
 
 
-def strip_creating_peeks(hist):
-    """Drop the peeks that find no iterator (none since the loader was built)."""
-    ops, exists = [], False
-    for op in hist["ops"]:
-        if op[0] == "fresh":
-            exists = False
-        elif op[0] == "peek" and not exists:
-            continue
-        elif op[0] in ("iter", "sd", "peek"):
-            exists = True
-        ops.append(op)
-    return dict(hist, ops=ops)
-
-
-def is_state_dict_before_load(f: Failure) -> bool:
-    """nodes Loader: state_dict() before the first iter(), then load_state_dict(t), then state_dict() returns
-    the state of the iterator the first call created instead of t (F3, Lean: get_transparent_statement_false)."""
-    h = f.inp
-    return f.kind == "peek_transparency" and h.get("facade") == "loader" and peek_transparent(strip_creating_peeks(h))[0]
-
-
 KNOWN = {
     "lookahead-counts-as-request": is_lookahead_request,
     "sdl-end-before-stop": is_sdl_end_before_stop,
-    "loader-state-dict-before-load": is_state_dict_before_load,
 }
 
 
